@@ -143,10 +143,10 @@ Proof.
                             keep P (if (a =? 0) && negb (no_prune g) && negb (no_prune g) then [g] else [])).
   { intros g. unfold no_prune. cbn [negb]. rewrite !andb_true_r, <- andb_assoc, <- negb_orb, pre_or_post.
     destruct (a =? 0); [|reflexivity]. unfold keep. cbn. destruct (P g); reflexivity. }
-  destruct n as [|[|n2]].
+  destruct n as [|[|n2]] eqn:En.
   - inversion H; subst L. rewrite SMALL. reflexivity.
   - inversion H; subst L. rewrite SMALL. reflexivity.
-  - unfold no_prune at 1 2 in H. cbn [orb] in H. rewrite pre_or_post.
+  - rewrite <- En in *. unfold no_prune at 1 2 in H. cbn [orb] in H. rewrite pre_or_post.
     destruct (P g1) eqn:Pg.
     + rewrite (tree_all_bad _ _ _ _ Pg H). reflexivity.
     + apply tree_prune; assumption.
